@@ -1435,6 +1435,26 @@ Proof.
     rewrite (client_multiget_conformant us p mg m D). apply request_eqb_refl.
 Qed.
 
+(** the client-side specification looks at the request a body denotes only up to the
+    live properties asked for beside address-data *)
+Theorem client_spec_modulo_live_props us i t t' r r' :
+  rfc_read t = Some r -> rfc_read t' = Some r' -> request_essence r = request_essence r' ->
+  client_spec_ok us i (COBody t) = client_spec_ok us i (COBody t').
+Proof.
+  intros H H' E. unfold client_spec_ok. rewrite H, H'. unfold same_request. rewrite E. reflexivity.
+Qed.
+
+(** ... so a body that asks for more (or other) live properties than the model's is
+    accepted as long as address-data and everything else is as denoted *)
+Theorem client_spec_accepts_other_live_props us q r t r' :
+  den_query q = Some r -> rfc_read t = Some r' ->
+  request_essence r' = request_essence (RQuery r) ->
+  client_spec_ok us (CIQuery q) (COBody t) = true.
+Proof.
+  intros D H E. unfold client_spec_ok. cbn [client_denotation]. rewrite D. cbn [obind]. rewrite H.
+  unfold same_request. rewrite E. apply request_eqb_refl.
+Qed.
+
 Lemma TextMatch_eqb_eq a b : TextMatch_eqb a b = true -> a = b.
 Proof.
   destruct a, b. unfold TextMatch_eqb. simpl. intros H. apply andb_true_iff in H. destruct H as [H H3].
